@@ -271,6 +271,9 @@ Proof.
     destruct (a_copy_refines (aget j w) a_empty (ainv_get j w I) a_inv_empty) as (I1 & Hi).
     split; [apply ainv_upd; assumption|]. rewrite aabs_upd, sget_aabs, Hi. reflexivity.
   - (* AAssign *)
+    destruct (Nat.eqb i j) eqn:Eij.
+    { apply Nat.eqb_eq in Eij. subst j. inversion H; subst w' r. split; [exact I|].
+      unfold sget. rewrite upd_nth_same. reflexivity. }
     inversion H; subst w' r.
     destruct (a_clear_refines _ (ainv_get i w I)) as (I0 & _).
     destruct (a_copy_refines (aget j w) _ (ainv_get j w I) I0) as (I1 & Hi).
@@ -331,6 +334,15 @@ Proof.
     inversion H; subst w' r.
     split; [apply ainv_upd; [apply ainv_upd; [exact I|]|]; apply ainv_get; exact I|].
     rewrite !aabs_upd, !sget_aabs. reflexivity.
+  - (* AAppendOwn *)
+    cbv zeta in H.
+    destruct (a_append (nth k (items (aget i w)) 0) (aget i w)) as [a1 k1] eqn:E. inversion H; subst w' r.
+    destruct (a_append_refines _ _ _ _ (ainv_get i w I) E) as (I1 & Hi & Hk).
+    split; [apply ainv_upd; assumption|]. rewrite aabs_upd, sget_aabs, Hi, Hk. reflexivity.
+  - (* AResizeOwn *)
+    cbv zeta in H. inversion H; subst w' r.
+    destruct (a_resize_refines n (nth k (items (aget i w)) 0) _ (ainv_get i w I) ltac:(assumption)) as (I1 & Hi).
+    split; [apply ainv_upd; assumption|]. rewrite aabs_upd, sget_aabs, Hi. reflexivity.
 Qed.
 
 Definition aobs_trace (tr : list (aworld * mres)) : list (sstate * res) :=
